@@ -25,6 +25,7 @@ import (
 	"unicode/utf8"
 
 	"github.com/gr33nbl00d/caddy-revocation-validator/core"
+	"github.com/gr33nbl00d/caddy-revocation-validator/core/verifhook"
 	"github.com/gr33nbl00d/caddy-revocation-validator/crl"
 	"github.com/gr33nbl00d/caddy-revocation-validator/crl/crlloader"
 	"go.uber.org/zap"
@@ -580,10 +581,17 @@ func (h *c20Hist) observe(ok bool) string {
 	// quiescence first: the ticker goroutine runs its first update pass inline, so after Cleanup it may still be
 	// working (or not even have started); update passes it spawned end by themselves
 	var ticker, passes int
-	for i := 0; i < 4000; i++ {
+	tickerWait := 0
+	for i := 0; i < 6000; i++ {
 		ticker, passes = diskPluginGoroutines()
-		if ticker-h.baseline == want && passes == 0 {
+		if passes == 0 && (ticker-h.baseline == want || tickerWait > 300) {
 			break
+		}
+		if passes == 0 {
+			tickerWait++ // an idle ticker goroutine gets 3 s to end; update passes in flight get 60 s
+		} else if h.v == nil && i == 100 {
+			// not counted as a violation (it ends by itself), but reported
+			h.r.Count("observation:update-pass-outlives-cleanup-by-more-than-1s")
 		}
 		time.Sleep(10 * time.Millisecond)
 	}
@@ -625,6 +633,7 @@ func (h *c20Hist) oracle(ev string) {
 		}
 		if t, _ := diskPluginGoroutines(); t-h.baseline != 0 {
 			h.r.Violate("C20 updater-goroutine-survives-cleanup", fmt.Sprintf("%s: %d ticker goroutines more than before", where, t-h.baseline), nil)
+			h.baseline = t
 		}
 	}
 }
@@ -844,6 +853,7 @@ func c20Cycles(r *Run, ca *CA) {
 	}
 	g0 := settle()
 	gMid := 0
+	var lingering time.Duration
 	t0 := time.Now()
 	for c := 0; c < k; c++ {
 		h.name = fmt.Sprintf("cycle %d", c)
@@ -860,9 +870,30 @@ func c20Cycles(r *Run, ca *CA) {
 				break
 			}
 			h.stores[id] = true
+			if c%100 == 19 {
+				// once in a while make sure Cleanup arrives while the ticker goroutine's first pass is staging the new CRL
+				staging := make(chan struct{}, 1)
+				verifhook.SetCallback(func(name string) {
+					if name == "ldb.put.meta" {
+						select {
+						case staging <- struct{}{}:
+						default:
+						}
+						time.Sleep(300 * time.Millisecond)
+					}
+				})
+				select {
+				case <-staging:
+					r.Count("event:cleanup-during-staging")
+				case <-time.After(2 * time.Second):
+				}
+				v.Close()
+				verifhook.SetCallback(nil)
+			}
 			v.Close()
 			// settle: the pass that was in flight ends by itself (its store handles are closed; retries take seconds)
-			deadline := time.Now().Add(40 * time.Second)
+			closedAt := time.Now()
+			deadline := closedAt.Add(60 * time.Second)
 			for time.Now().Before(deadline) {
 				_, upd := diskPluginGoroutines()
 				if upd == 0 {
@@ -871,7 +902,14 @@ func c20Cycles(r *Run, ca *CA) {
 				time.Sleep(50 * time.Millisecond)
 			}
 			if _, upd := diskPluginGoroutines(); upd != 0 {
-				r.Violate("C20 update-pass-survives-cleanup", fmt.Sprintf("cycle %d: %d update passes still running 40 s after Cleanup", c, upd), nil)
+				r.Violate("C20 update-pass-survives-cleanup", fmt.Sprintf("cycle %d: %d update passes still running 60 s after Cleanup", c, upd), nil)
+			}
+			if d := time.Since(closedAt); d > lingering {
+				lingering = d
+			}
+			if time.Since(closedAt) > time.Second {
+				// not counted as a violation (it ends by itself and cannot touch a live store), but reported
+				r.Count("observation:update-pass-outlives-cleanup-by-more-than-1s")
 			}
 			h.v = nil
 			// one model line for "Provision, then Cleanup at once": only the settled state is compared
@@ -886,7 +924,8 @@ func c20Cycles(r *Run, ca *CA) {
 	}
 	g1 := settle()
 	r.Count(fmt.Sprintf("cycles:%d", k))
-	r.Note(fmt.Sprintf("cycles: k=%d in %.1fs, goroutines before=%d mid=%d after=%d", k, time.Since(t0).Seconds(), g0, gMid, g1))
+	r.Note(fmt.Sprintf("cycles: k=%d in %.1fs, goroutines before=%d mid=%d after=%d; longest time an update pass that was in flight at Cleanup kept running (temp artefacts in the deregistered work_dir): %.1fs",
+		k, time.Since(t0).Seconds(), g0, gMid, g1, lingering.Seconds()))
 	if os.Getenv("VERIF_DEBUG_GOROUTINES") != "" {
 		cnt := map[string]int{}
 		for _, g := range strings.Split(diskAllStacks(), "\n\n") {
